@@ -10,6 +10,7 @@
   move the expected inbound number forward: a lower NewSeqNo is rejected and changes nothing."
 -/
 import Qfx.Lemmas.SessC07
+import Qfx.Model.SessionNxOrig
 open Qfx Qfx.Sess
 
 /-! ## continuity -/
@@ -277,6 +278,211 @@ theorem C07_reset_time_records_clock (s : Sess) (now : Int) (rs : Nat) (hrs : s.
     (checkResetTime s now).lastCheckedReset = some now :=
   checkResetTime_records s now rs hrs
 
+/-! ## EnableNextExpectedMsgSeqNum: tag 789 of the Logons we send, the peer's tag 789
+
+The configuration documents the option as "add tag NextExpectedMsgSeqNum (789) on the sent Logon and use the value of tag 789 on
+a received Logon to synchronise the session".  The model follows session.go after the `fix:` commits 9b6c1a0, eef4b78, fb22495,
+9431a2e, 732dac2 (verif-nx); what the code did before is `Qfx/Model/SessionNxOrig.lean`, its five defects are `#guard`ed below. -/
+
+/-- **what our own Logon announces** (initiator at connect, ResetSeqTime): with the option on, tag 789 is the inbound number
+    we expect once the Logon is out — the store's, or 1 when the Logon carries 141=Y and resets the store on its way out;
+    with the option off there is no tag 789 -/
+theorem C07_next_expected_own (s : Sess) (reset : Bool) :
+    (s.cfg.nextExpected = true → (789, toString (sendLogonInReplyTo s reset).store.target) ∈ (logonMsg s reset).f)
+    ∧ (s.cfg.nextExpected = false → (logonMsg s reset).f.get? 789 = none)
+    ∧ (sendLogonInReplyTo s reset).store.target = (if reset then 1 else s.store.target) := by
+  have ht : (sendLogonInReplyTo s reset).store.target = (if reset then 1 else s.store.target) := by
+    cases reset
+    · exact (sendLogon_plain s).2.1
+    · exact (sendLogon_reset s).2.1
+  refine ⟨fun h => ?_, fun h => ?_, ht⟩
+  · rw [ht]
+    have : logonMsg s reset = logonMsgX s reset (some (if reset then 1 else s.store.target)) := by
+      unfold logonMsg nxOwn; rw [h]; rfl
+    rw [this]; exact logonMsgX_mem789 s reset _
+  · have : logonMsg s reset = logonMsgX s reset none := by unfold logonMsg; rw [nxOwn_off s reset h]
+    rw [this]; exact logonMsgX_no789 s reset
+
+/-- **what the acceptor's reply announces**: with the option on and a readable tag 789 in the Logon being answered, tag 789 =
+    `NextTargetMsgSeqNum + 1` — the number expected once that Logon is counted, which is the expected number after the Logon
+    has been accepted (`C07_next_expected_accepted`); without the option, or when the peer's Logon has no readable 789, the
+    reply has no tag 789 -/
+theorem C07_next_expected_reply (s : Sess) (reset : Bool) (m : InMsg) :
+    (s.cfg.nextExpected = true → (peerNext m).isSome = true → (789, toString (s.store.target + 1)) ∈ (logonMsgRe s reset m).f)
+    ∧ ((s.cfg.nextExpected = false ∨ peerNext m = none) → (logonMsgRe s reset m).f.get? 789 = none) := by
+  refine ⟨fun h1 h2 => ?_, fun h => ?_⟩
+  · have : logonMsgRe s reset m = logonMsgX s reset (some (s.store.target + 1)) := by
+      unfold logonMsgRe nxReply; rw [h1, h2]; rfl
+    rw [this]; exact logonMsgX_mem789 s reset _
+  · have : logonMsgRe s reset m = logonMsgX s reset none := by
+      unfold logonMsgRe nxReply
+      rcases h with h | h
+      · rw [h]; rfl
+      · rw [h]; simp
+    rw [this]; exact logonMsgX_no789 s reset
+
+/-- **higher: a Logon whose tag 789 is above our next outbound number is refused** ("we can't resend what we never sent").
+    The acceptor whenever it is about to answer (a Logon carrying tag 141 included — after that reset our number is 1), the
+    initiator when the Logon has no tag 141: `handleLogon` ends with RejectLogon before the reply, before the logon
+    notification and before the Logon's number is counted; nothing is stored or sent, `sentReset` stays (an acceptor has
+    adopted the HeartBtInt by then). -/
+theorem C07_next_expected_ahead_refused (s : Sess) (m : InMsg) (n : Int) (hnx : s.cfg.nextExpected = true) (hp : peerNext m = some n)
+    (hgt : n > s.store.sender)
+    (hrole : if s.cfg.initiator then m.f.has 141 = false else (logonResetFlag m && s.sentReset && s.st.loggedOn) = false) :
+    logonTail s m = (logonRefused s m, some (.rej .rejectLogon))
+    ∧ (logonRefused s m).store = s.store ∧ (logonRefused s m).log = s.log ∧ (logonRefused s m).toSend = s.toSend
+    ∧ (logonRefused s m).sentReset = s.sentReset := by
+  have hr : logonRefuses s m (logonResetFlag m) = true := by
+    unfold logonRefuses nxRefuses nxAbove
+    rw [hnx, hp]
+    cases hi : s.cfg.initiator
+    · rw [hi] at hrole; simp only [Bool.false_eq_true, if_false] at hrole
+      simp [hrole, hgt]
+    · rw [hi] at hrole; simp only [if_true] at hrole
+      simp [hrole, hgt]
+  refine ⟨by unfold logonTail; rw [if_pos hr], ?_⟩
+  unfold logonRefused
+  split
+  · split <;> exact ⟨rfl, rfl, rfl, rfl⟩
+  · exact ⟨rfl, rfl, rfl, rfl⟩
+
+/-- … and only then: a refusal means the option is on and the Logon's 789 is above our next outbound number -/
+theorem C07_next_expected_refused_only_ahead (s : Sess) (m : InMsg) (flag : Bool) (h : logonRefuses s m flag = true) :
+    s.cfg.nextExpected = true ∧ ∃ n, peerNext m = some n ∧ n > s.store.sender := by
+  unfold logonRefuses nxRefuses nxAbove at h
+  simp only [Bool.and_eq_true] at h
+  obtain ⟨_, h1, h2⟩ := h
+  refine ⟨h1, ?_⟩
+  cases hp : peerNext m with
+  | none => rw [hp] at h2; cases h2
+  | some n => rw [hp] at h2; exact ⟨n, rfl, by simpa using h2⟩
+
+/-- in the logon state the refusal is answered with a Logout, the Logon's number is counted and the connection dropped -/
+theorem C07_next_expected_refusal_logs_out (s s' : Sess) (m : InMsg) (hk : kindOf m = "A")
+    (h : handleLogon s m = (s', some (.rej .rejectLogon))) : logonFixMsgIn s m = shutdownWithReason s' m true := by
+  unfold logonFixMsgIn
+  rw [if_neg (by simp [hk]), h]
+
+/-- **equal, absent, unreadable, option off, or a Logon carrying tag 141: nothing happens** -/
+theorem C07_next_expected_equal (s : Sess) (m : InMsg) (ns : Int)
+    (h : s.cfg.nextExpected = false ∨ m.f.has 141 = true ∨ peerNext m = none ∨ peerNext m = some ns) : nxEval s m ns = s :=
+  nxEval_quiet s m ns h
+
+/-- **lower: the implied gap fill.**  Option on, no tag 141, the peer's 789 = `n` differs from our number `ns` (it is below:
+    above has been refused): exactly one SequenceReset-GapFill with PossDupFlag is handed to `EnqueueBytesAndSend`, numbered
+    `n`, NewSeqNo = the number we use next (the acceptor's reply has taken `ns`, an initiator has sent nothing) — with and
+    without message persistence, nothing is replayed.  The store is not touched: nothing stored is lost, both counters
+    stay.  With a connection it is the last thing written (behind whatever was queued, when logged on). -/
+theorem C07_next_expected_lower (s : Sess) (m : InMsg) (ns n : Int) (hnx : s.cfg.nextExpected = true) (h141 : m.f.has 141 = false)
+    (hp : peerNext m = some n) (hne : n ≠ ns) :
+    let gf := gapFillRe s m n s.store.sender
+    nxEval s m ns = enqueueAndSend s gf
+    ∧ gf.kind = "4" ∧ gf.seq = n ∧ gf.f = [(36, toString s.store.sender), (43, "Y"), (122, "+"), (123, "Y")]
+    ∧ (nxEval s m ns).store = s.store
+    ∧ (s.out = true → (nxEval s m ns).toSend = []
+        ∧ (nxEval s m ns).log = .wire gf :: ((if s.st.loggedOn then s.toSend else []).map Obs.wire).reverse ++ s.log) := by
+  intro gf
+  have e := nxEval_fill s m ns n hnx h141 hp hne
+  refine ⟨e, rfl, rfl, rfl, (nxEval_frame s m ns).1, fun ho => ?_⟩
+  rw [e]
+  exact ⟨(enqueueAndSend_log s gf ho).2, (enqueueAndSend_log s gf ho).1⟩
+
+/-- **a Logon accepted, end to end** (either role; no reset configured or asked for; the Logon carries the expected number
+    and its 789 is not ahead of us): the session is notified, the expected inbound number advances by one, the outbound
+    number by one for the acceptor's reply and not at all for an initiator, nothing stored is lost (the reply is the only
+    new entry), the epoch stays.  The acceptor's reply is written and — option on, readable 789 in the peer's Logon —
+    announces in tag 789 exactly the inbound number expected afterwards.  When the peer's 789 is below our next outbound
+    number the gap fill from the peer's 789 is written, and its NewSeqNo is exactly the outbound number we use next. -/
+theorem C07_next_expected_accepted (s : Sess) (m : InMsg)
+    (h5 : (s.cfg.bs == 5 && !m.f.has 1137) = false) (hg : GateMsg s.cfg m) (ht : TimeGate s m)
+    (hv : callbackVerdict m = none) (hro : (if s.cfg.initiator then false else s.cfg.resetOnLogon) = false)
+    (hf : logonResetFlag m = false) (h34 : getInt m 34 = .val s.store.target) (hnr : nxRefuses s m = false) :
+    let r := handleLogon s m
+    r.2 = none ∧ r.1.store.target = s.store.target + 1
+    ∧ r.1.store.sender = (if s.cfg.initiator then s.store.sender else s.store.sender + 1)
+    ∧ r.1.store.epoch = s.store.epoch ∧ s.store.msgs <:+ r.1.store.msgs ∧ Obs.onLogon ∈ r.1.log
+    ∧ (s.cfg.initiator = false → ∃ base : Sess, base.cfg = s.cfg ∧ base.store = s.store ∧
+        let reply : OutMsg := { stamp base ((logonMsgRe base false m).inReplyTo m) with seq := s.store.sender }
+        (s.out = true → Obs.wire reply ∈ r.1.log)
+        ∧ (s.cfg.nextExpected = true → (peerNext m).isSome = true → (789, toString r.1.store.target) ∈ reply.f))
+    ∧ (s.cfg.nextExpected = true → m.f.has 141 = false → ∀ n, peerNext m = some n → n < s.store.sender → s.out = true →
+        ∃ gf : OutMsg, Obs.wire gf ∈ r.1.log ∧ gf.kind = "4" ∧ gf.seq = n
+          ∧ gf.f = [(36, toString r.1.store.sender), (43, "Y"), (122, "+"), (123, "Y")]) := by
+  intro r
+  obtain ⟨s2, c1, c2, c3, c4, c5, c6, _, _, hl⟩ :=
+    handleLogon_passes s m h5 hg ht hv hro (Or.inl hf) s.store.target h34 (Int.le_refl _)
+  have hnr2 : logonRefuses s2 m (logonResetFlag m) = false := by
+    have : nxRefuses s2 m = nxRefuses s m := by unfold nxRefuses; rw [c1, c3]
+    unfold logonRefuses; rw [this, hnr, Bool.and_false]
+  -- the reply step
+  have hx : ∃ x : Sess, logonReply s2 m false = x ∧ x.store.target = s.store.target
+      ∧ x.store.sender = (if s.cfg.initiator then s.store.sender else s.store.sender + 1)
+      ∧ x.store.epoch = s.store.epoch ∧ s.store.msgs <:+ x.store.msgs ∧ x.cfg = s.cfg ∧ x.out = s.out
+      ∧ (s.cfg.initiator = false → ∃ base : Sess, base.cfg = s.cfg ∧ base.store = s.store ∧
+          (s.out = true → Obs.wire { stamp base ((logonMsgRe base false m).inReplyTo m) with seq := s.store.sender } ∈ x.log)) := by
+    cases hi : s.cfg.initiator
+    · obtain ⟨b1, b2, b3, b4, b5⟩ := replyBase_frame s2 m
+      obtain ⟨q1, q2, q3, q4, _, q6, _, q8, q9⟩ := sendLogonRe_plain (replyBase s2 m) m
+      have e : logonReply s2 m false = sendLogonRe (replyBase s2 m) false m := by
+        rw [logonReply_base, c1, hi]; rfl
+      refine ⟨_, e, by rw [q2, b3, c3], by rw [q1, b3, c3]; rfl, by rw [q3, b3, c3], ?_, by rw [q6, b1, c1], by rw [q8, b4, c5], fun _ => ?_⟩
+      · rw [q4, b3, c3]
+        split
+        · exact List.suffix_cons _ _
+        · exact List.suffix_refl _
+      · refine ⟨replyBase s2 m, b1.trans c1, b3.trans c3, fun ho => ?_⟩
+        have := (q9 (by rw [b4, c5]; exact ho)).1
+        rw [this, b3, c3]; simp
+    · have e : logonReply s2 m false = s2 := by unfold logonReply; rw [c1, hi]; rfl
+      exact ⟨s2, e, by rw [c3], by rw [c3]; rfl, by rw [c3], by rw [c3]; exact List.suffix_refl _, c1, c5, fun h => by cases h⟩
+  obtain ⟨x, ex, x1, x2, x3, x4, x5, x6, x7⟩ := hx
+  -- notification, the peer's 789, the number consumed
+  obtain ⟨y, hy⟩ : ∃ y, y = ((x.setSentReset false).emit (.armPeer (1200 * x.hb))).emit .onLogon := ⟨_, rfl⟩
+  have ys : y.store = x.store := by rw [hy]; rfl
+  obtain ⟨z, hz⟩ : ∃ z, z = nxEval y m s2.store.sender := ⟨_, rfl⟩
+  obtain ⟨f1, f2, _, _, f5, _⟩ := nxEval_frame y m s2.store.sender
+  have zs : z.store = x.store := by rw [hz, f1, ys]
+  obtain ⟨pre, hpre⟩ := nxEval_log y m s2.store.sender
+  have hfin : logonFinish x m s2.store.sender = (incrTarget z, none) := by
+    unfold logonFinish
+    simp only []
+    rw [← hy, ← hz]
+    have : checkTooHigh z m = none := by
+      unfold checkTooHigh; rw [h34]; simp only []
+      rw [if_neg]; rw [zs, x1]; omega
+    rw [this]
+  have hr : r = (incrTarget z, none) := by
+    show handleLogon s m = _
+    rw [hl]; unfold logonTail; rw [hnr2, hf]; simp only [Bool.false_eq_true, if_false]
+    rw [ex, hfin]
+  have hzlog : z.log = pre ++ (Obs.onLogon :: Obs.armPeer (1200 * x.hb) :: x.log) := by rw [hz, hpre, hy]; rfl
+  rw [hr]
+  refine ⟨rfl, ?_, ?_, ?_, ?_, ?_, fun hi => ?_, fun hnx h141 n hp hlt ho => ?_⟩
+  · show z.store.target + 1 = _; rw [zs, x1]
+  · show z.store.sender = _; rw [zs, x2]
+  · show z.store.epoch = _; rw [zs, x3]
+  · show s.store.msgs <:+ z.store.msgs; rw [zs]; exact x4
+  · show Obs.onLogon ∈ Obs.incT :: z.log; rw [hzlog]; simp
+  · obtain ⟨base, hb1, hb2, hb3⟩ := x7 hi
+    refine ⟨base, hb1, hb2, ?_⟩
+    intro reply
+    refine ⟨fun ho => ?_, fun hnx hps => ?_⟩
+    · show Obs.wire reply ∈ Obs.incT :: z.log
+      rw [hzlog]
+      have := hb3 ho
+      simp only [List.mem_cons, List.mem_append]
+      exact Or.inr (Or.inr (Or.inr (Or.inr this)))
+    · show (789, toString (z.store.target + 1)) ∈ (logonMsgRe base false m).f
+      rw [zs, x1, ← hb2]
+      exact (C07_next_expected_reply base false m).1 (by rw [hb1]; exact hnx) hps
+  · have hne : n ≠ s2.store.sender := by rw [c3]; omega
+    obtain ⟨_, k2, k3, k4, _, k6⟩ := C07_next_expected_lower y m s2.store.sender n (by rw [hy]; exact x5.symm ▸ hnx) h141 hp hne
+    have hyo : y.out = true := by rw [hy]; show x.out = true; rw [x6]; exact ho
+    refine ⟨gapFillRe y m n y.store.sender, ?_, k2, k3, ?_⟩
+    · show Obs.wire _ ∈ Obs.incT :: z.log
+      rw [hz, (k6 hyo).2]; simp
+    · rw [k4]; show _ = [(36, toString z.store.sender), _, _, _]; rw [zs, ys]
+
 /-! ## ResetOnLogout / ResetOnDisconnect -/
 
 /-- with ResetOnLogout, whenever the Logout handler ends the session (answering the peer's Logout, or receiving the answer
@@ -416,6 +622,75 @@ def c07Up (cfg : Cfg) (logon : InMsg := c07Logon 7 []) : Sess :=
 #guard (let logon40 : InMsg := { f := [(8, "FIX.4.0"), (35, "A"), (49, "TGT"), (56, "SND"), (34, "7"), (52, "@0"), (98, "0"), (108, "30")] }
         let r := step (c07Up { c07Rst with bs := 0 } logon40) (.resetTime (86400 + 43200))
         (c07Summary r.1, c07Wires r.2.1)) == ((2, 1, [1], 1, "InSession"), [("A", 1, [(108, "30"), (141, "Y")])])
+/-! ### EnableNextExpectedMsgSeqNum (tag 789) -/
+def c07NxA : Cfg := { nextExpected := true }
+def c07NxI : Cfg := { nextExpected := true, initiator := true }
+/-- connected, the peer's Logon not yet received; counters (5, 7) — an initiator has sent its Logon: (6, 7) -/
+def c07Conn (cfg : Cfg) : Sess := runEvents (initSess cfg 5 7) [.connect]
+-- the hypotheses of C07_next_expected_accepted hold for the acceptor and a Logon numbered 7 whose 789 is 3 or 5
+#guard (checkBeginString (c07Conn c07NxA) (c07Logon 7 [(789, "3")])).isNone && (checkCompID (c07Conn c07NxA) (c07Logon 7 [(789, "3")])).isNone
+        && (checkSendingTime (c07Conn c07NxA) (c07Logon 7 [(789, "3")])).isNone && (validate c07NxA (c07Logon 7 [(789, "3")])).isNone
+        && (callbackVerdict (c07Logon 7 [(789, "3")])).isNone && !logonResetFlag (c07Logon 7 [(789, "3")])
+        && !nxRefuses (c07Conn c07NxA) (c07Logon 7 [(789, "3")]) && !nxRefuses (c07Conn c07NxA) (c07Logon 7 [(789, "5")])
+        && nxRefuses (c07Conn c07NxA) (c07Logon 7 [(789, "6")])
+-- equal: our next outbound number is 5, the peer expects 5: the reply (number 5) announces 789 = 8, nothing else is sent
+#guard (let r := step (c07Conn c07NxA) (.incomingMsg (some (c07Logon 7 [(789, "5")]))); (c07Summary r.1, c07Wires r.2.1))
+       == ((6, 8, [5], 0, "InSession"), [("A", 5, [(108, "30"), (789, "8")])])
+-- lower: the peer expects 3: reply, then ONE gap fill 3 → 6 (6 = the number we use next); counters as before, nothing lost
+#guard (let r := step (c07Conn c07NxA) (.incomingMsg (some (c07Logon 7 [(789, "3")]))); (c07Summary r.1, c07Wires r.2.1))
+       == ((6, 8, [5], 0, "InSession"), [("A", 5, [(108, "30"), (789, "8")]), ("4", 3, [(36, "6"), (43, "Y"), (122, "+"), (123, "Y")])])
+-- … the same without message persistence (after `fix:` eef4b78)
+#guard (let r := step (c07Conn { c07NxA with persist := false }) (.incomingMsg (some (c07Logon 7 [(789, "3")]))); (c07Summary r.1, c07Wires r.2.1))
+       == ((6, 8, [], 0, "InSession"), [("A", 5, [(108, "30"), (789, "8")]), ("4", 3, [(36, "6"), (43, "Y"), (122, "+"), (123, "Y")])])
+-- higher: the peer expects 6, we have not sent 5 yet: refused — Logout, no logon notification, the Logon's number counted
+#guard (let r := step (c07Conn c07NxA) (.incomingMsg (some (c07Logon 7 [(789, "6")]))); (c07Summary r.1, c07Wires r.2.1, r.2.1.filter (· == .onLogon)))
+       == ((6, 8, [5], 0, "Latent"), [("5", 5, [])], [])
+-- no 789 in the peer's Logon, or the option off: the reply has none either, nothing else happens
+#guard (let r := step (c07Conn c07NxA) (.incomingMsg (some (c07Logon 7 []))); c07Wires r.2.1) == [("A", 5, [(108, "30")])]
+#guard (let r := step (c07Conn {}) (.incomingMsg (some (c07Logon 7 [(789, "3")]))); c07Wires r.2.1) == [("A", 5, [(108, "30")])]
+-- the initiator's Logon announces what it expects: 789 = 7 (after `fix:` 9b6c1a0) …
+#guard (let r := step (initSess c07NxI 5 7) .connect; (c07Summary r.1, c07Wires r.2.1)) == ((6, 7, [5], 0, "Logon"), [("A", 5, [(108, "30"), (789, "7")])])
+-- … the answer says 789 = 3: gap fill 3 → 6, and 6 IS the initiator's next number (after `fix:` fb22495); 789 = 9: refused (after `fix:` 732dac2)
+#guard (let r := step (c07Conn c07NxI) (.incomingMsg (some (c07Logon 7 [(789, "3")]))); (c07Summary r.1, c07Wires r.2.1))
+       == ((6, 8, [5], 0, "InSession"), [("4", 3, [(36, "6"), (43, "Y"), (122, "+"), (123, "Y")])])
+#guard (let r := step (c07Conn c07NxI) (.incomingMsg (some (c07Logon 7 [(789, "9")]))); (c07Summary r.1, c07Wires r.2.1, r.2.1.filter (· == .onLogon)))
+       == ((7, 8, [6, 5], 0, "Latent"), [("5", 6, [])], [])
+-- ResetOnLogon on the acceptor: the peer starts from 1 and says so; after the reset we are at 1 too: in sync, no gap fill (after `fix:` 9431a2e)
+#guard (let r := step (c07Conn { c07NxA with resetOnLogon := true }) (.incomingMsg (some (c07Logon 1 [(789, "1")]))); (c07Summary r.1, c07Wires r.2.1))
+       == ((2, 2, [1], 1, "InSession"), [("A", 1, [(108, "30"), (789, "2")])])
+-- a reset Logon (141=Y): its 789 is not evaluated for a gap fill, but 789 = 2 is ahead of the reset acceptor (next number 1): refused
+#guard (let r := step (c07Conn c07NxA) (.incomingMsg (some (c07Logon 1 [(141, "Y"), (789, "1")]))); (c07Summary r.1, c07Wires r.2.1))
+       == ((2, 2, [1], 2, "InSession"), [("A", 1, [(108, "30"), (141, "Y"), (789, "2")])])
+#guard (let r := step (c07Conn c07NxA) (.incomingMsg (some (c07Logon 1 [(141, "Y"), (789, "2")]))); (c07Summary r.1, c07Wires r.2.1))
+       == ((2, 2, [1], 1, "Latent"), [("5", 1, [])])
+-- ResetSeqTime with the option: the reset Logon announces 789 = 1, the number expected after the reset (after `fix:` 9b6c1a0)
+#guard (let r := step (c07Up { c07Rst with nextExpected := true }) (.resetTime (86400 + 43200)); (c07Summary r.1, c07Wires r.2.1))
+       == ((2, 1, [1], 1, "InSession"), [("A", 1, [(108, "30"), (141, "Y"), (789, "1")])])
+-- a Logon that opens a gap (number 9, expected 7) with 789 = 3: reply (789 = 8: the Logon being answered counted), gap fill, and the
+-- ResendRequest for [7, ∞) queued behind them — the expected number stays 7 (observation: the reply announces 8 while 7 is requested)
+#guard (let r := step (c07Conn c07NxA) (.incomingMsg (some (c07Logon 9 [(789, "3")]))); (c07Summary r.1, c07Wires r.2.1, r.1.toSend.map (fun o => (o.kind, o.f))))
+       == ((7, 7, [6, 5], 0, "Resend"), [("A", 5, [(108, "30"), (789, "8")]), ("4", 3, [(36, "6"), (43, "Y"), (122, "+"), (123, "Y")])], [("2", [(7, "7"), (16, "0")])])
+
+/-! the code BEFORE the five `fix:` commits (`Qfx/Model/SessionNxOrig.lean`; that model agreed with the unfixed tree on every operation) -/
+-- (1) the initiator announced one more than it expects (789 = 8 with expected 7): a quickfix acceptor with the option refuses that Logon
+#guard c07Wires (sendLogonOrig ((initSess c07NxI 5 7).openConn) false).log == [("A", 5, [(108, "30"), (789, "8")])]
+-- … and the ResetSeqTime Logon announced the number from before its own reset (789 = 9, expected afterwards 1)
+#guard c07Wires (dropAndSend (c07Up { c07Rst with nextExpected := true }) (logonMsgOrig (c07Up { c07Rst with nextExpected := true }) true)).log
+       == [("A", 1, [(108, "30"), (141, "Y"), (789, "9")])]
+-- (2) without persistence a lower 789 became `targetTooHigh{3, 5}`: the logon state queued a ResendRequest from OUR outbound number 5,
+--     entered Resend, and the Logon's own number was not counted (expected stays 7 although OnLogon was given and the reply sent)
+#guard (let r := logonFixMsgInNxOrig (c07Conn { c07NxA with persist := false }) (c07Logon 7 [(789, "3")])
+        (c07Summary r.1, r.2.name, c07Wires r.1.log, r.1.toSend.map (fun o => (o.kind, o.f)), r.1.log.filter (· == .onLogon)))
+       == ((7, 7, [], 0, "Logon"), "Resend", [("A", 5, [(108, "30"), (789, "8")])], [("2", [(7, "5"), (16, "0")])], [.onLogon])
+-- (3) an initiator's gap fill announced 7 while its next message is 6 (the peer then sees 6 as too low and logs out)
+#guard (let r := handleLogonNxOrig (c07Conn c07NxI) (c07Logon 7 [(789, "3")]); (c07Summary r.1, c07Wires r.1.log))
+       == ((6, 8, [5], 0, "Logon"), [("4", 3, [(36, "7"), (43, "Y"), (122, "+"), (123, "Y")])])
+-- (4) ResetOnLogon: the peer's 789 = 1 was compared with the number from before the reset (5): a gap fill 1 → 6 behind reply number 1
+#guard (let r := handleLogonNxOrig (c07Conn { c07NxA with resetOnLogon := true }) (c07Logon 1 [(789, "1")]); (c07Summary r.1, c07Wires r.1.log))
+       == ((2, 2, [1], 1, "Logon"), [("4", 1, [(36, "6"), (43, "Y"), (122, "+"), (123, "Y")]), ("A", 1, [(108, "30"), (789, "2")])])
+-- (5) an initiator accepted a Logon whose 789 = 9 is ahead of it (next number 6) and sent a gap fill numbered 9 with NewSeqNo 7
+#guard (let r := handleLogonNxOrig (c07Conn c07NxI) (c07Logon 7 [(789, "9")]); (c07Summary r.1, c07Wires r.1.log, r.1.log.filter (· == .onLogon)))
+       == ((6, 8, [5], 0, "Logon"), [("4", 9, [(36, "7"), (43, "Y"), (122, "+"), (123, "Y")])], [.onLogon])
 -- ResetOnLogout / ResetOnDisconnect: (1, 1) right after
 #guard (let s := runEvents (initSess { resetOnLogout := true } 5 7) [.connect, .incomingMsg (some (c07Logon 7 []))]
         c07Summary (step s (.incomingMsg (some (c07Msg "5" 8 [])))).1) == (1, 1, [], 1, "Latent")
@@ -448,6 +723,19 @@ Clause checklist (properties.jsonl C07 → theorems)
         the answer: initiator — C07_logon_reset_echo (no second reset); acceptor — C07_logon_reset_echo_acceptor,
         C07_own_reset_answer_not_answered (after `fix:` cbdc133; before it — C07_orig_echo_of_own_reset_resets_again — the engine
         answered the peer's answer with another Logon 1 / 141=Y and reset again: C07.echo_of_own_reset_resets_again{role=acceptor})
+* EnableNextExpectedMsgSeqNum (tag 789; the property text does not mention it — the clauses are the reading of the configuration
+  documentation "add tag 789 on the sent Logon and use the value of tag 789 on a received Logon to synchronise the session"; the
+  monitor clauses are C07.next_expected_*): our own Logon announces the inbound number expected once it is out, 1 when it resets
+      : C07_next_expected_own; the acceptor's reply announces the number expected once the Logon answered is counted
+      : C07_next_expected_reply, and that IS the expected number after acceptance: C07_next_expected_accepted;
+        peer's 789 higher than our next outbound number ⇒ refused, nothing changed: C07_next_expected_ahead_refused,
+        C07_next_expected_refused_only_ahead, C07_next_expected_refusal_logs_out; equal / absent / unreadable / option off / tag 141
+        present ⇒ nothing: C07_next_expected_equal; lower ⇒ exactly one gap fill from the peer's 789 to the number we use next, store
+        untouched (nothing stored is lost, counters unchanged), both persistence modes: C07_next_expected_lower, end to end through
+        `handleLogon` for both roles: C07_next_expected_accepted.  With the option off the Logons carry no 789 and `handleLogon` is
+        what it was (`logonTail_off`, `nxEval_off`).  The five defects of the code before the `fix:` commits: #guards on
+        `Model/SessionNxOrig.lean`.  NOT a C07 matter but worth knowing: the gap fill replaces a replay — between two engines with
+        the option on, messages lost in flight stay lost (Props/C05.lean `cexNxHistory`, same on the real engines).
 * the reset flag exists from FIX.4.1                               : C07_no_reset_flag_fix40 (+ `1 ≤ bs` in C07_logon_reset_sent_iff) for the
         Logon of `connect`; remark (#guard): the ResetSeqTime Logon carries 141 whatever the BeginString — the property is silent there
 * ResetOnLogout / ResetOnDisconnect return both counters to 1 exactly at logout / disconnect
